@@ -614,7 +614,7 @@ def reminder_lists(ctx, n):
 
 
 def run(ctx):
-    st = translate.run(["FacadeConsts", "Packs", "Pinned", "C11Combos"])
+    st = translate.run(["FacadeConsts", "FacadeFacts", "Packs", "Pinned", "C11Combos"])
     ctx.cov["translator"] = st
     for k, v in st.items():
         if v != "ok":
